@@ -38,7 +38,8 @@ EXPLANATION = ("Theorems: the oracle decides exactly feasibility + inclusion of 
                "and each returned allocation is checked by the verified oracle inside Coq.")
 
 RULES = ["greedy", "greedy", "maxw_pd", "maxw_ilp", "mes", "mes", "mes_iter", "phragmen", "phragmen",
-         "completion", "increase", "increase", "mes", "mes_tight", "mes_tight", "mes_tight", "mes_tight", "mes_tight"]
+         "completion", "increase", "increase", "mes", "mes_tight", "mes_tight", "mes_tight", "mes_tight", "mes_tight",
+         "maxw_knap", "maxw_knap", "maxw_knap"]
 
 
 def budget(tier):
@@ -68,10 +69,34 @@ def _gen_mes_tight(rng):
             "stream": "mes_tight"}
 
 
+def _gen_maxw_knap(rng):
+    """Welfare maximiser (primal/dual knapsack) on instances whose profits are uncorrelated with the costs:
+    the branch-and-bound then replaces incumbents several times, which is where a slip in the reconstruction of
+    the selected set shows (wrong or over-budget allocation)."""
+    m = rng.choice([5, 6, 7, 8])
+    costs = [Fraction(rng.choice([1, 2, 3, 4, 5, 6, 7, 9, 11])) for _ in range(m)]
+    nv = rng.choice([1, 2, 3])
+    ballots = [{str(j): pb.qs(rng.choice([1, 2, 3, 4, 5, 6, 7, 8])) for j in range(m) if rng.random() < 0.85}
+               for _ in range(nv)]
+    tot = sum(costs, Fraction(0))
+    B = tot * rng.choice([Fraction(1, 2), Fraction(2, 5), Fraction(3, 5), Fraction(1, 3)])
+    order = list(range(m))
+    rng.shuffle(order)
+    c = {"costs": [pb.qs(x) for x in costs], "budget": pb.qs(B), "order": order, "btype": "cardinal",
+         "ballots": ballots, "multi": rng.random() < 0.3, "rule": "maxw_pd", "sat": "Additive_Cardinal_Sat",
+         "tb": "lexico", "perm": list(range(m)), "resolute": True, "init": [], "solver": False,
+         "stream": "maxw_knap"}
+    if rng.random() < 0.3:
+        c["init"] = E.feasible_subset(rng, c["costs"], c["budget"])
+    return c
+
+
 def gen(rng, i, tier):
     rule = RULES[i % len(RULES)]
     if rule == "mes_tight":
         return _gen_mes_tight(rng)
+    if rule == "maxw_knap":
+        return _gen_maxw_knap(rng)
     btypes = ("approval",) if rule == "phragmen" else ("approval", "approval", "cardinal", "cumulative", "ordinal")
     deg = rng.random() < 0.2      # degenerate stream
     e = E.gen_election(rng, max_proj=(3 if deg else 6), max_voters=5, btypes=btypes)
